@@ -226,6 +226,7 @@ func run(e *core.Env) {
 		got, how := known(pr.pa.IP)
 		e.Ev("present", uint64(len(entry)), b2u(pr.valid), b2u(got))
 		e.Case(0x01, uint64(len(entry)), uint64(len(pr.what)), b2u(pr.valid), uint64(len(pr.pa.PublicKey)))
+		e.Sample("%s: %s (key %d bytes, easing %d) -> known=%v", entry, pr.what, len(pr.pa.PublicKey), pr.pa.Easing, got)
 		switch {
 		case pr.valid && !got:
 			e.Fail("valid-identity-rejected/"+entry, "a by-construction valid identity %s (easing %d) left no session at V via %s", pr.pa.IP, pr.pa.Easing, entry)
